@@ -206,6 +206,11 @@ def oracle(h):
                 if after["st"] > 3:
                     established = after["st"] in ESTABLISHED
                 continue
+            if established and mtype == "5":
+                # the peer's Logout ends the session whatever happens to its journaling (regression: R3b)
+                if not any(e[0] == 3 for e in evs) or after["st"] > 3:
+                    fails.append((i, "peer Logout was not processed (on_logout %s, state %d -> %d)" % (
+                        "called" if any(e[0] == 3 for e in evs) else "not called", before["st"], after["st"]), None))
             if not established:
                 cls = {7: "D15-initiator-logon-sent", 8: "D25-acceptor-stuck-logon-recv"}.get(before["st"])
                 if apps:
